@@ -569,6 +569,11 @@ def flatten_protocol(idx, rep):
         tree_names = [n for n, vs in asg.items() for v, p, st in vs if isinstance(v, ast.Call) and isinstance(v.func, ast.Attribute) and v.func.attr == "tree_flatten" and p == (1, )]
         uses_tree = nested is not None and any(isinstance(c.func, ast.Attribute) and c.func.attr == "tree_unflatten" and c.args and isinstance(c.args[0], ast.Name) and c.args[0].id in tree_names
                                                for c in df.calls(nested.node))
+        # the same closure written as functools.partial(xnp.tree_unflatten, tree)
+        u_val = df.resolve_value(fl.node, unfl) if isinstance(unfl, ast.Name) else unfl
+        if isinstance(u_val, ast.Call) and ast.unparse(u_val.func).split(".")[-1] == "partial" and len(u_val.args) == 2 and isinstance(u_val.args[0], ast.Attribute) \
+                and u_val.args[0].attr == "tree_unflatten" and isinstance(u_val.args[1], ast.Name) and u_val.args[1].id in tree_names and not u_val.keywords:
+            closes = uses_tree = True
         okf = bool(from_tf and closes and uses_tree)
     rep.decide(okf, "flatten-protocol", "flatten", "flatten() returns the leaves of xnp.tree_flatten(self) and an unflatten closed over the same treedef",
                detail="" if okf else "flatten", locs=[idx.loc(fl.module, fl.node)])
